@@ -1,4 +1,4 @@
-import JobShopModel.Queries
+import JobShopModel.Events
 /-!
 # Line-protocol driver for the executable model
 
@@ -62,57 +62,45 @@ def snapshot (w : World) : String :=
   let sch := " | ".intercalate (w.s.sched.map fun ms => " ".intercalate (ms.map (fmtSOp I)))
   s!"sched {sch} ; mn {fmtInts w.s.machNext} ; ji {fmtNats w.s.jobIdx} ; jn {fmtInts w.s.jobNext}"
 
-def withState {α} (w : World) (r : α × State) (f : α → String) : World × String :=
-  ({ w with s := r.2 }, f r.1)
+def parseQuery (I : Instance) (ts : List String) : Option Query :=
+  let ref? (id : String) : Option OpRef := id.toNat?.bind (refOfId I)
+  match ts with
+  | ["current_time"] => some .currentTime
+  | ["available"] => some .available
+  | ["raw_ready"] => some .rawReady
+  | ["unscheduled"] => some .unscheduled
+  | ["scheduled"] => some .scheduled
+  | ["uncompleted"] => some .uncompleted
+  | ["completed"] => some .completed
+  | ["available_machines"] => some .availableMachines
+  | ["available_jobs"] => some .availableJobs
+  | ["ongoing"] => some .ongoing
+  | ["makespan"] => some .makespan
+  | ["is_complete"] => some .isComplete
+  | ["num_scheduled"] => some .numScheduled
+  | ["is_scheduled", id] => (ref? id).map .isScheduled
+  | ["next_operation", j] => j.toNat?.map .nextOperation
+  | ["earliest_start", id] => (ref? id).map .earliestStart
+  | ["start_time", id, m] => (ref? id).bind fun r => m.toNat?.map (.startTime r)
+  | "min_start" :: ids => ((nats? ids).bind fun l => l.mapM (refOfId I)).map .minStart
+  | ["is_ongoing", id] => (ref? id).map .isOngoing
+  | ["remaining_duration", id] => (ref? id).map .remainingDuration
+  | _ => none
+
+def fmtAnswer (I : Instance) : Answer → String
+  | .int v => toString v
+  | .refs l => lst (fmtRefs I l)
+  | .nats l => lst (fmtNats l)
+  | .sops l => lst (" ".intercalate (l.map (fmtSOp I)))
+  | .bool b => toString b
+  | .ref r => toString (opId I r)
+  | .raise => "raise"
+  | .badOp => "bad-op"
 
 def query (w : World) (ts : List String) : World × String :=
-  let c := w.cfg
-  let I := c.I
-  match ts with
-  | ["current_time"] => withState w (qCurrentTime c w.s) toString
-  | ["available"] => withState w (qAvailable c w.s) (fun l => lst (fmtRefs I l))
-  | ["raw_ready"] => withState w (qRawReady c w.s) (fun l => lst (fmtRefs I l))
-  | ["unscheduled"] => withState w (qUnscheduled c w.s) (fun l => lst (fmtRefs I l))
-  | ["scheduled"] => withState w (qScheduled c w.s) (fun l => lst (fmtRefs I l))
-  | ["uncompleted"] => withState w (qUncompleted c w.s) (fun l => lst (fmtRefs I l))
-  | ["completed"] => withState w (qCompleted c w.s) (fun l => lst (fmtRefs I l))
-  | ["available_machines"] => withState w (qAvailableMachines c w.s) (fun l => lst (fmtNats l))
-  | ["available_jobs"] => withState w (qAvailableJobs c w.s) (fun l => lst (fmtNats l))
-  | ["ongoing"] => withState w (qOngoing c w.s) (fun l => lst (" ".intercalate (l.map (fmtSOp I))))
-  | ["makespan"] => (w, toString (makespan w.s))
-  | ["is_complete"] => (w, toString (isComplete I w.s))
-  | ["num_scheduled"] => (w, toString (numScheduled w.s))
-  | ["is_scheduled", id] =>
-    match id.toNat?.bind (refOfId I) with
-    | some r => (w, toString (isScheduled w.s r))
-    | none => (w, "bad-op")
-  | ["next_operation", j] =>
-    match j.toNat? with
-    | some j => (match nextOperation I w.s j with
-        | .ok r => (w, toString (opId I r))
-        | .error _ => (w, "raise"))
-    | none => (w, "bad-op")
-  | ["earliest_start", id] =>
-    match id.toNat?.bind (refOfId I) with
-    | some r => (w, toString (earliestStart I w.s r))
-    | none => (w, "bad-op")
-  | ["start_time", id, m] =>
-    match id.toNat?.bind (refOfId I), m.toNat? with
-    | some r, some m => (w, toString (startTime w.s r.1 m))
-    | _, _ => (w, "bad-op")
-  | "min_start" :: ids =>
-    match (nats? ids).bind (fun l => l.mapM (refOfId I)) with
-    | some L => (w, toString (minStart I w.s L))
-    | none => (w, "bad-op")
-  | ["is_ongoing", id] =>
-    match (id.toNat?.bind (refOfId I)).bind (findSOp w.s) with
-    | some x => withState w (qIsOngoing c w.s x) toString
-    | none => (w, "bad-op")
-  | ["remaining_duration", id] =>
-    match (id.toNat?.bind (refOfId I)).bind (findSOp w.s) with
-    | some x => withState w (qRemainingDuration c w.s x) toString
-    | none => (w, "bad-op")
-  | _ => (w, "bad-op")
+  match parseQuery w.cfg.I ts with
+  | some q => let r := ask w.cfg w.s q; ({ w with s := r.2 }, fmtAnswer w.cfg.I r.1)
+  | none => (w, "bad-op")
 
 def step (w : World) (line : String) : World × String :=
   match toks line with
